@@ -3,6 +3,23 @@ use super::{EndPosition, Region};
 #[cfg(test)]
 mod test;
 
+/// Converts a loop region to frame indices. A region that doesn't contain
+/// at least one frame (end <= start) can't be looped and is ignored; wrapping
+/// the position by a length of zero (or a negative length) would never terminate.
+fn resolve_loop_region(
+	loop_region: Option<Region>,
+	sample_rate: u32,
+	num_frames: usize,
+) -> Option<(usize, usize)> {
+	let loop_region = loop_region?;
+	let loop_start = loop_region.start.into_samples(sample_rate);
+	let loop_end = match loop_region.end {
+		EndPosition::EndOfAudio => num_frames,
+		EndPosition::Custom(end_position) => end_position.into_samples(sample_rate),
+	};
+	(loop_end > loop_start).then_some((loop_start, loop_end))
+}
+
 pub struct Transport {
 	pub position: usize,
 	/// The start and end frames of the sound that should be looped. The upper bound
@@ -20,14 +37,7 @@ impl Transport {
 		sample_rate: u32,
 		num_frames: usize,
 	) -> Self {
-		let loop_region = loop_region.map(|loop_region| {
-			let loop_start = loop_region.start.into_samples(sample_rate);
-			let loop_end = match loop_region.end {
-				EndPosition::EndOfAudio => num_frames,
-				EndPosition::Custom(end_position) => end_position.into_samples(sample_rate),
-			};
-			(loop_start, loop_end)
-		});
+		let loop_region = resolve_loop_region(loop_region, sample_rate, num_frames);
 		Self {
 			position: if reverse {
 				num_frames.saturating_sub(1).saturating_sub(start_position)
@@ -45,14 +55,7 @@ impl Transport {
 		sample_rate: u32,
 		num_frames: usize,
 	) {
-		self.loop_region = loop_region.map(|loop_region| {
-			let loop_start = loop_region.start.into_samples(sample_rate);
-			let loop_end = match loop_region.end {
-				EndPosition::EndOfAudio => num_frames,
-				EndPosition::Custom(end_position) => end_position.into_samples(sample_rate),
-			};
-			(loop_start, loop_end)
-		});
+		self.loop_region = resolve_loop_region(loop_region, sample_rate, num_frames);
 	}
 
 	pub fn increment_position(&mut self, num_frames: usize) {
